@@ -74,6 +74,14 @@ pub trait Prop: Sync {
     fn runs(&self, tier: Tier) -> u64;
     /// the case for run seed `seed` (JSON so that it can be written to a replay file verbatim)
     fn generate(&self, seed: u64, tier: Tier) -> Value;
+    /// the case of run `i` of a batch (default: a function of the run seed only)
+    fn case_for_run(&self, _i: u64, seed: u64, tier: Tier) -> Value {
+        self.generate(seed, tier)
+    }
+    /// which merged event counter is the number of evaluated cases (default: runs)
+    fn evaluations_from(&self) -> Option<&'static str> {
+        None
+    }
     /// pure function of the case and the code under test
     fn execute(&self, case: &Value) -> RunOut;
     /// smaller variants of a failing case, most aggressive first
@@ -307,7 +315,7 @@ pub fn worker_main(p: &dyn Prop, tier: Tier, root: u64, rank: u64, nworkers: u64
             let _ = writeln!(h, "{}", json!({"start": i}));
             let _ = h.flush();
         }
-        let case = p.generate(seed, tier);
+        let case = p.case_for_run(i, seed, tier);
         let out = p.execute(&case);
         // cases are shipped for samples (first runs) and for violations
         let ship = i < 2 || out.violation.is_some();
@@ -455,7 +463,7 @@ pub fn check_main(p: &dyn Prop, tier: Tier) -> i32 {
             return 2;
         }
         let seed = run_seed(root, p.id(), *i);
-        let case = p.generate(seed, tier);
+        let case = p.case_for_run(*i, seed, tier);
         // confirmation: the same case alone, in a fresh process, with a timeout
         let tmp = format!("{}/replays/{}-{}-suspect.json", verif_root(), p.id(), seed);
         let _ = std::fs::create_dir_all(format!("{}/replays", verif_root()));
@@ -526,7 +534,7 @@ pub fn check_main(p: &dyn Prop, tier: Tier) -> i32 {
     if std::env::var("VERIF_NO_RECHECK").is_err() {
         for i in recheck.iter().take(12) {
             let seed = run_seed(root, p.id(), *i);
-            let case = p.generate(seed, tier);
+            let case = p.case_for_run(*i, seed, tier);
             let out = p.execute(&case);
             let want = lines[i]["transcript"].as_str().unwrap_or("");
             if out.transcript != want {
@@ -539,7 +547,7 @@ pub fn check_main(p: &dyn Prop, tier: Tier) -> i32 {
         let i = nondeterministic[0];
         let seed = run_seed(root, p.id(), i);
         prelude_violation = Some((
-            p.generate(seed, tier),
+            p.case_for_run(i, seed, tier),
             Violation::new("cross-process-divergence", json!({"run": i, "seed": seed, "note": "the same call history produced a different transcript in a second OS process"})),
         ));
         nondeterministic.clear();
@@ -594,7 +602,7 @@ pub fn check_main(p: &dyn Prop, tier: Tier) -> i32 {
     } else if let Some(first) = new_violations.first() {
         let viol = Violation::from_value(&first["violation"]).unwrap();
         let seed = first["seed"].as_u64().unwrap_or(0);
-        let case = if first["case"].is_null() { p.generate(seed, tier) } else { first["case"].clone() };
+        let case = if first["case"].is_null() { p.case_for_run(first["i"].as_u64().unwrap_or(0), seed, tier) } else { first["case"].clone() };
         let case = p.refine_case(&case, &viol);
         let budget = Duration::from_secs(if tier == Tier::Quick { 60 } else { 600 });
         let dangerous = viol.class == "request-hangs" || viol.class == "server-process-died";
@@ -653,8 +661,10 @@ fn write_evidence(
     let runs = lines.len() as u64;
     let faults: BTreeMap<&String, &u64> = stats.counts.iter().filter(|(k, _)| !k.starts_with("probe_")).collect();
     let probes: BTreeMap<&String, &u64> = stats.counts.iter().filter(|(k, _)| k.starts_with("probe_")).collect();
+    let evaluations = p.evaluations_from().and_then(|k| stats.counts.get(k).cloned()).filter(|n| *n > 0).unwrap_or(runs);
     let mut cov = json!({
-        "evaluations": runs,
+        "evaluations": evaluations,
+        "runs": runs,
         "distinct_nontrivial": nontrivial.len(),
         "distinct_cases": digests.len(),
         "rule": p.rule(),
